@@ -82,6 +82,7 @@ class Ctx:
         self.obligations: dict[tuple, Oblig] = {}
         self.site_counts: dict[str, int] = {}
         self.strlits: dict[str, Any] = {}
+        self.str_preds: dict[tuple, Any] = {}
         self.input_symbols: dict[str, Any] = {}
         self.havoc_used = False
         self.prove_timeout_ms = prove_timeout_ms
@@ -109,8 +110,21 @@ class Ctx:
             const = z3.Const(f"str:{text}", StrSort)
             for other in self.strlits.values():
                 self.axioms.append(const != other)
+            for (kind, affix), func in self.str_preds.items():
+                self.axioms.append(func(const) == z3.BoolVal(getattr(text, kind)(affix)))
             self.strlits[text] = const
         return self.strlits[text]
+
+    def str_pred(self, kind: str, affix: str, value: StrV) -> Any:
+        """`value.startswith(affix)` / `.endswith(affix)` for an opaque string: an uninterpreted
+        predicate per literal affix, functional in the string and exact on every string literal"""
+        key = (kind, affix)
+        if key not in self.str_preds:
+            func = z3.Function(f"str.{kind}:{affix}", StrSort, z3.BoolSort())
+            for text, const in self.strlits.items():
+                self.axioms.append(func(const) == z3.BoolVal(getattr(text, kind)(affix)))
+            self.str_preds[key] = func
+        return self.str_preds[key](self.str_term(value))
 
     def str_term(self, value: StrV) -> Any:
         if value.t is not None:
@@ -305,11 +319,28 @@ class Ctx:
                     out[name] = z3.is_true(val)
                 elif z3.is_rational_value(val):
                     out[name] = float(val.numerator_as_long()) / float(val.denominator_as_long())
+                elif val.sort() == StrSort:
+                    out[name] = self._model_string(model, val)
                 else:
                     out[name] = str(val)
             except Exception:  # pylint: disable=broad-except
                 out[name] = "?"
         return out
+
+    def _model_string(self, model: Any, val: Any) -> str:
+        """A Python string for an abstract string value: the literal it equals, or a fresh token
+        carrying the affixes the model's startswith/endswith predicates require"""
+        for text, const in self.strlits.items():
+            if model.eval(const, model_completion=True).eq(val):
+                return text
+        pre = suf = ""
+        for (kind, affix), func in self.str_preds.items():
+            if z3.is_true(model.eval(func(val), model_completion=True)):
+                if kind == "startswith" and len(affix) > len(pre):
+                    pre = affix
+                elif kind == "endswith" and len(affix) > len(suf):
+                    suf = affix
+        return pre + "~" + str(val).rsplit("!", 1)[-1] + "~" + suf
 
     def cover(self, label: str) -> None:
         """Vacuity guard: the current path condition must be satisfiable."""
